@@ -1,13 +1,25 @@
 #!/bin/bash
 # tools_seeded_rerun.sh <slot> <key>... : run the target property's quick check (thorough at 10 % if
 # quick misses) against each seeded change in an isolated copy /tmp/iso<slot>; one line per change.
+# An inconclusive run (exit 2: build hiccup, git lock contention between lanes) is retried.
 SLOT=$1; shift
 export ISO=/tmp/iso$SLOT
+run() { # <mode-env> <patch> <check> -> sets RC
+  local out
+  for attempt in 1 2 3; do
+    out=$(env $1 /verif/tools_mutant_iso.sh "$2" "$3" 2>&1 | tail -1)
+    RC=$(echo "$out" | sed -n 's/.* rc=\([0-9]*\) .*/\1/p')
+    [ "$RC" = 0 ] || [ "$RC" = 1 ] && return
+    sleep 5
+  done
+  RC="?($out)"
+}
 for key in "$@"; do
   c=${key%%-*}
   by=$(python3 -c "import json;print(json.load(open('/verif/seeded/$key/meta.json')).get('check_result',{}).get('by_check','') or '$c')")
-  out=$(/verif/tools_mutant_iso.sh /verif/seeded/$key/patch.diff $by 2>&1 | tail -1)
-  if echo "$out" | grep -q "rc=1"; then echo "$key quick CAUGHT"; continue; fi
-  out=$(MODE=thorough VERIF_SCALE=0.1 VERIF_FUZZ_RUNS=200 /verif/tools_mutant_iso.sh /verif/seeded/$key/patch.diff $by 2>&1 | tail -1)
-  if echo "$out" | grep -q "rc=1"; then echo "$key thorough10 CAUGHT"; else echo "$key MISSED :: $out"; fi
+  run "X=1" /verif/seeded/$key/patch.diff $by
+  if [ "$RC" = 1 ]; then echo "$key quick CAUGHT"; continue; fi
+  if [ "$RC" != 0 ]; then echo "$key INCONCLUSIVE $RC"; continue; fi
+  run "MODE=thorough VERIF_SCALE=0.1 VERIF_FUZZ_RUNS=200 VERIF_PLAIN_ROUNDS=1 VERIF_PLAIN_STRESS_ROUNDS=400" /verif/seeded/$key/patch.diff $by
+  if [ "$RC" = 1 ]; then echo "$key thorough10 CAUGHT"; else echo "$key MISSED rc=$RC"; fi
 done
